@@ -19,11 +19,11 @@ class Unreachable(RuntimeError):
 
 def f32_sqrt(v: ir.f32) -> ir.f32:
     """Square root"""
-    return math.sqrt(v)
+    return math.nan if v < 0 else math.sqrt(v)
 
 
 def f64_sqrt(v: ir.f64) -> ir.f64:
-    return math.sqrt(v)
+    return math.nan if v < 0 else math.sqrt(v)
 
 
 def i32_rotr(v: ir.i32, cnt: ir.i32) -> ir.i32:
